@@ -11,6 +11,20 @@ BIMPORTS = ("From Coq Require Import List Arith ZArith QArith Qcanon.\nImport Li
             "From GV.model Require Import Linear Wfsa WfsaEps EpsSpec Det.")
 
 
+def inexact_machine(d):
+    """does the dumped automaton carry float weights (rational runs can be contaminated by float constants such as Float.star(0) = 1.0)?"""
+    return any(isinstance(x, dict) for _, x in d["init"] + d["final"]) or any(isinstance(a[3], dict) for a in d["arcs"])
+
+
+def stochastic_py(om, tol=1e-7):
+    mass = {}
+    for q_, w in om["final"]:
+        mass[q_] = mass.get(q_, 0.0) + float(Fraction(w))
+    for i_, _, _, w in om["arcs"]:
+        mass[i_] = mass.get(i_, 0.0) + float(Fraction(w))
+    return all(abs(v - 1.0) <= tol for v in mass.values())
+
+
 def viol(ctx, sig, what, obj):
     if not ctx.seen(sig):
         ctx.violation(sig, what, obj)
@@ -97,7 +111,11 @@ def run(ctx):
             if op in ("determinize", "min_det"):
                 bexprs.append(f"deterministic {lit}")
                 bmeta.append((m, op, "deterministic", om))
-            if op == "push":
+            if op == "push" and inexact_machine(q["ok"]["machine"]):
+                # float weights in the result: the mass is checked up to rounding, outside Coq
+                if not stochastic_py(om):
+                    viol(ctx, "push:stochastic", "the result of push is not stochastic", {"kind": "det-shape", "op": op, "pred": "stochastic", "machine": m, "output": om})
+            elif op == "push":
                 live = sorted({a[0] for a in om["arcs"]} | {q[0] for q in om["final"]})
                 bexprs.append("forallb (fun q => Qc_eqb (@out_mass QcFR " + lit + " q) 1%Qc) [" + "; ".join(f"{q}%nat" for q in live) + "]")
                 bmeta.append((m, op, "stochastic", om))
@@ -131,7 +149,10 @@ def run(ctx):
             except Exception:
                 continue
             lit = F.coq_wfsa(om)
-            if op == "push":
+            if op == "push" and inexact_machine(q["ok"]["machine"]):
+                if not stochastic_py(om):
+                    viol(ctx, "push:stochastic", "the result of push is not stochastic", {"kind": "det-shape", "op": op, "pred": "stochastic", "machine": m, "output": om})
+            elif op == "push":
                 live = sorted({a[0] for a in om["arcs"]} | {q_[0] for q_ in om["final"]})
                 bexprs.append("forallb (fun q => Qc_eqb (@out_mass QcFR " + lit + " q) 1%Qc) [" + "; ".join(f"{q_}%nat" for q_ in live) + "]")
                 bmeta.append((m, op, "stochastic", om))
